@@ -28,9 +28,17 @@ def ForeignKey.toSpec (f : ForeignKey) : FkSpec :=
 def idxSpecOf (is : List Index) : List IdxSpec := (is.filter (·.name != pkName)).map Index.toSpec
 def fkSpecOf (fs : List ForeignKey) : List FkSpec := fs.map ForeignKey.toSpec
 
-/-- every index / foreign key was created by the history read so far, and no index is empty -/
+/-- an index record as the reader leaves it: created by the history read so far, not empty, marked as the primary key
+    exactly when it is the `primary_key` record, plain or unique -/
+structure Index.Live (i : Index) : Prop where
+  add : i.action = .add
+  ne : i.cols ≠ []
+  pk : i.isPk = (i.name == pkName)
+  typ : i.typ = .none ∨ i.typ = .unique
+
+/-- every index / foreign key was created by the history read so far, and every index record is well-formed -/
 @[reducible] def ElemFresh (r : List Index × List ForeignKey) : Prop :=
-  (∀ i ∈ r.1, i.action = .add ∧ i.cols ≠ []) ∧ (∀ f ∈ r.2, f.action = .add)
+  (∀ i ∈ r.1, i.Live) ∧ (∀ f ∈ r.2, f.action = .add)
 
 -- ---------------------------------------------------------------------------------------------------------------
 -- list facts
